@@ -53,7 +53,11 @@ Menu == <<
   Def(Ifc("HasArg", <<Fld("f", Named("Int"), <<Arg("x", Named("Int"))>>, "")>>)),                          \* 27
   Def(Obj("ImplOk", <<"HasArg">>, <<Fld("f", Named("Int"), <<Arg("x", Named("Int")), Arg("opt", Named("Int"))>>, "")>>)),   \* 28 same argument type + optional extra
   Def(Obj("ImplBad", <<"HasArg">>, <<Fld("f", Named("Int"), <<Arg("x", NN(Named("Int")))>>, "")>>)),       \* 29 argument type differs (Int! vs Int): invalid
-  Def(Obj("ImplBad2", <<"HasArg">>, <<Fld("f", Named("Int"), <<Arg("x", Named("Int")), Arg("req", NN(Named("Int")))>>, "")>>))  \* 30 extra REQUIRED argument: invalid
+  Def(Obj("ImplBad2", <<"HasArg">>, <<Fld("f", Named("Int"), <<Arg("x", Named("Int")), Arg("req", NN(Named("Int")))>>, "")>>)),  \* 30 extra REQUIRED argument: invalid
+  Def(Obj("Mutation", <<>>, <<Fld("m", Named("Int"), <<>>, "")>>)),                                        \* 31 conventional root name: a root only when there is no schema definition
+  Def(Obj("Subscription", <<>>, <<Fld("s", Named("Int"), <<>>, "")>>)),                                    \* 32 likewise
+  Ext("Node", Ifc("Node", <<Fld("next", Named("Node"), <<>>, ""), Fld("pick", Named("Int"), <<Arg("from", Named("Node2In"))>>, "")>>)),  \* 33 extension fields typed by types of the document (needs 34)
+  Def(Inp("Node2In", <<ArgD("x", Named("Int"))>>))                                                          \* 34
 >>
 VARIABLES picked, done
 Init == picked = <<1>> /\ done = FALSE          \* Query type always present
@@ -113,13 +117,16 @@ Build(doc) ==
                         /\ \A a \in 1..Len(merged[i].fields[f].args) : kindOf(Inner(merged[i].fields[f].args[a].type)) \in {"scalar", "enum", "input"}
       q == IF ss = <<>> THEN "Query" ELSE ss[1].target
       sx == SchemaExts(doc)
-      mut == IF sx = <<>> THEN "" ELSE sx[1].target
+      \* 3.2.1: without a schema definition the types named Query / Mutation / Subscription are the roots; with one, only what it lists
+      conv(n) == IF ss = <<>> /\ n \in tnames /\ kindOf(n) = "object" THEN n ELSE ""
+      mut == IF sx = <<>> THEN conv("Mutation") ELSE sx[1].target
+      sub == conv("Subscription")
   IN IF Dup(Names(ds)) \/ Len(ss) > 1 THEN [ok |-> FALSE, err |-> "SDLError", schema |-> <<>>]
-     ELSE IF extErr THEN [ok |-> FALSE, err |-> "ExtensionError", schema |-> <<>>]
+     ELSE IF extErr \/ (sx # <<>> /\ conv("Mutation") # "") THEN [ok |-> FALSE, err |-> "ExtensionError", schema |-> <<>>]   \* (a schema extension cannot re-define a root)
      ELSE IF ~refsOk THEN [ok |-> FALSE, err |-> "SDLError", schema |-> <<>>]
      ELSE IF mut # "" /\ mut \notin tnames THEN [ok |-> FALSE, err |-> "SDLError", schema |-> <<>>]
      ELSE IF ~(q \in tnames /\ kindOf(q) = "object") \/ ~implOk \/ ~unionOk \/ ~posOk \/ (mut # "" /\ kindOf(mut) # "object") THEN [ok |-> FALSE, err |-> "SchemaError", schema |-> <<>>]
-     ELSE [ok |-> TRUE, err |-> "", schema |-> [query |-> q, mutation |-> mut, types |-> merged]]
+     ELSE [ok |-> TRUE, err |-> "", schema |-> [query |-> q, mutation |-> mut, subscription |-> sub, types |-> merged]]
 \* rn: what build_schema(ignore_extensions = TRUE) must give: the document without its extension items
 Emit == done => PrintT("BLD " \o ToJson([doc |-> Doc, picked |-> picked, r |-> Build(Doc), rn |-> Build(SelectSeq(Doc, LAMBDA x : x.it \notin {"ext", "schemaext"}))]))
 \* R1: the result does not depend on the order of the items, up to the order extensions of one target are merged in
